@@ -3,9 +3,10 @@
 with /root/.vp/BASELINE.json: every test in stable_pass must pass."""
 import json, os, subprocess, sys
 
+REPO = sys.argv[1] if len(sys.argv) > 1 else "/repo"
 env = dict(os.environ, GOFLAGS="-mod=mod", GOPROXY="off", GOSUMDB="off", GOTOOLCHAIN="local")
 p = subprocess.run(["go", "test", "-json", "-vet=off", "-count=1", "-timeout", "25m", "./..."],
-                   cwd="/repo", env=env, capture_output=True, text=True)
+                   cwd=REPO, env=env, capture_output=True, text=True)
 status = {}
 for line in p.stdout.splitlines():
     try:
@@ -24,5 +25,5 @@ for t in failed:
     print("  FAIL", t, tag)
 for t in missing[:20]:
     print("  NOT-PASSING", t, status.get(t))
-subprocess.run(["git", "-C", "/repo", "checkout", "--", "go.sum", "go.mod"], capture_output=True)
+subprocess.run(["git", "-C", REPO, "checkout", "--", "go.sum", "go.mod"], capture_output=True)
 sys.exit(1 if missing else 0)
